@@ -14,6 +14,34 @@ pub type Result<T> = std::result::Result<T, FerrousError>;
 }
 //@@ include spec/resp.rs
 verus! {
+/// abstract tree of an exec frame
+pub open spec fn fview(f: RespFrame) -> FV
+    decreases f
+{
+    match f {
+        RespFrame::SimpleString(b) => FV::Simple(b@),
+        RespFrame::Error(b) => FV::Error(b@),
+        RespFrame::Integer(n) => FV::Int(n),
+        RespFrame::BulkString(Some(b)) => FV::Bulk(Some(b@)),
+        RespFrame::BulkString(None) => FV::Bulk(None),
+        RespFrame::Array(Some(v)) => FV::Arr(Some(Seq::new(v@.len(), |i: int| if 0 <= i < v@.len() { fview(v@[i]) } else { FV::Null }))),
+        RespFrame::Array(None) => FV::Arr(None),
+        RespFrame::NoResponse => FV::Null,
+        RespFrame::Null => FV::Null,
+        RespFrame::Boolean(b) => FV::Bool(b),
+        RespFrame::Double(x) => FV::Double(x),
+        RespFrame::Map(v) => FV::Map(Seq::new(v@.len(), |i: int| if 0 <= i < v@.len() { (fview(v@[i].0), fview(v@[i].1)) } else { (FV::Null, FV::Null) })),
+        RespFrame::Set(v) => FV::Set(Seq::new(v@.len(), |i: int| if 0 <= i < v@.len() { fview(v@[i]) } else { FV::Null })),
+    }
+}
+/// the parser's answer agrees with the grammar oracle: frame / request for more data / error, payloads and consumed count exact
+pub open spec fn pres(r: Result<Option<(RespFrame, usize)>>, p: PR) -> bool {
+    match p {
+        PR::Incomplete => r matches Ok(None),
+        PR::Bad => r is Err,
+        PR::Done(fv, n) => r matches Ok(Some((f, c))) && fview(f) == fv && c == n,
+    }
+}
 
 //@@ unit parse_line fn src/protocol/parser.rs parse_line
 fn parse_line(data: &[u8], skip_prefix: usize) -> (r: Result<Option<(&[u8], usize)>>)
@@ -42,6 +70,7 @@ pub open spec fn bulk_frame(f: RespFrame) -> Option<Option<Seq<u8>>> {
 fn parse_bulk_string(data: &[u8]) -> (r: Result<Option<(RespFrame, usize)>>)
     requires data@.len() < 0x4000_0000_0000_0000,   // request buffers are far below 2^62 bytes (DESIGN §4.3)
     ensures
+        data@.len() > 0 && data@[0] == 36u8 ==> pres(r, spec_frame(data@)),
         match spec_bulk(data@) {
             BulkSpec::Incomplete => r is Ok && r->Ok_0 is None,
             BulkSpec::Bad => r is Err,
@@ -55,6 +84,7 @@ fn parse_bulk_string(data: &[u8]) -> (r: Result<Option<(RespFrame, usize)>>)
 fn parse_null(data: &[u8]) -> (r: Result<Option<(RespFrame, usize)>>)
     requires data@.len() >= 1,
     ensures
+        data@[0] == 95u8 ==> pres(r, spec_frame(data@)),
         data@.len() < 3 ==> r is Ok && r->Ok_0 is None,
         data@.len() >= 3 && is_crlf_at(data@, 1) ==> r is Ok && (r->Ok_0 matches Some((f, c)) && f == RespFrame::Null && c == 3),
         data@.len() >= 3 && !is_crlf_at(data@, 1) ==> r is Err,
@@ -65,6 +95,7 @@ fn parse_null(data: &[u8]) -> (r: Result<Option<(RespFrame, usize)>>)
 fn parse_boolean(data: &[u8]) -> (r: Result<Option<(RespFrame, usize)>>)
     requires data@.len() >= 1,
     ensures
+        data@[0] == 35u8 ==> pres(r, spec_frame(data@)),
         data@.len() < 4 ==> r is Ok && r->Ok_0 is None,
         data@.len() >= 4 && is_crlf_at(data@, 2) && data@[1] == 116u8 ==> r is Ok && (r->Ok_0 matches Some((f, c)) && f == RespFrame::Boolean(true) && c == 4),
         data@.len() >= 4 && is_crlf_at(data@, 2) && data@[1] == 102u8 ==> r is Ok && (r->Ok_0 matches Some((f, c)) && f == RespFrame::Boolean(false) && c == 4),
@@ -83,38 +114,44 @@ fn verif_with_capacity<T>(n: usize) -> (v: Vec<T>)
     ensures v@.len() == 0,
 { Vec::with_capacity(n) }
 
-// ASSUMED CONTRACTS (tuple-pattern closures are outside Verus' subset; bounded Kani unit `resp_line_frames` checks them):
-// a complete result consumes between 1 and data.len() bytes.
+// ASSUMED CONTRACTS (tuple-pattern closures are outside Verus' subset): the four line-frame parsers compute the grammar
+// oracle for their type byte (each is `parse_line` + a conversion); a complete result consumes between 1 and data.len() bytes.
 #[verifier::external_body]
 fn parse_simple_string(data: &[u8]) -> (r: Result<Option<(RespFrame, usize)>>)
-    ensures r matches Ok(Some((f, c))) ==> 0 < c <= data@.len(),
+    requires data@.len() > 0, data@[0] == 43u8,
+    ensures pres(r, spec_frame(data@)), r matches Ok(Some((f, c))) ==> 0 < c <= data@.len(),
 { unimplemented!() }
 #[verifier::external_body]
 fn parse_error(data: &[u8]) -> (r: Result<Option<(RespFrame, usize)>>)
-    ensures r matches Ok(Some((f, c))) ==> 0 < c <= data@.len(),
+    requires data@.len() > 0, data@[0] == 45u8,
+    ensures pres(r, spec_frame(data@)), r matches Ok(Some((f, c))) ==> 0 < c <= data@.len(),
 { unimplemented!() }
 #[verifier::external_body]
 fn parse_integer(data: &[u8]) -> (r: Result<Option<(RespFrame, usize)>>)
-    ensures r matches Ok(Some((f, c))) ==> 0 < c <= data@.len(),
+    requires data@.len() > 0, data@[0] == 58u8,
+    ensures pres(r, spec_frame(data@)), r matches Ok(Some((f, c))) ==> 0 < c <= data@.len(),
 { unimplemented!() }
 #[verifier::external_body]
 fn parse_double(data: &[u8]) -> (r: Result<Option<(RespFrame, usize)>>)
-    ensures r matches Ok(Some((f, c))) ==> 0 < c <= data@.len(),
+    requires data@.len() > 0, data@[0] == 44u8,
+    ensures pres(r, spec_frame(data@)), r matches Ok(Some((f, c))) ==> 0 < c <= data@.len(),
 { unimplemented!() }
 #[verifier::external_body]
 fn verif_fmt() -> String { unimplemented!() }
+
+pub open spec fn arr_of(er: ER) -> PR { match er { ER::Incomplete => PR::Incomplete, ER::Bad => PR::Bad, ER::Done(fs, e) => PR::Done(FV::Arr(Some(fs)), e) } }
+pub open spec fn set_of(er: ER) -> PR { match er { ER::Incomplete => PR::Incomplete, ER::Bad => PR::Bad, ER::Done(fs, e) => PR::Done(FV::Set(fs), e) } }
+pub open spec fn map_of(er: ER) -> PR { match er { ER::Incomplete => PR::Incomplete, ER::Bad => PR::Bad, ER::Done(fs, e) => PR::Done(FV::Map(pairs_of(fs)), e) } }
+pub open spec fn fseq(v: Seq<RespFrame>) -> Seq<FV> { Seq::new(v.len(), |i: int| if 0 <= i < v.len() { fview(v[i]) } else { FV::Null }) }
 
 //@@ unit parse_frame fn src/protocol/parser.rs parse_frame
 //@@   rewrite R3
 fn parse_frame(data: &[u8]) -> (r: Result<Option<(RespFrame, usize)>>)
     requires data@.len() < 0x4000_0000_0000_0000, alloc_budget() >= data@.len(),
-    ensures r matches Ok(Some((f, c))) ==> 0 < c <= data@.len(),
-        data@.len() > 0 && data@[0] == 36u8 ==> (match spec_bulk(data@) {
-            BulkSpec::Incomplete => r is Ok && r->Ok_0 is None,
-            BulkSpec::Bad => r is Err,
-            BulkSpec::Null(n) => r is Ok && (r->Ok_0 matches Some((f, c)) && bulk_frame(f) == Some(None::<Seq<u8>>) && c == n),
-            BulkSpec::Data(payload, n) => r is Ok && (r->Ok_0 matches Some((f, c)) && bulk_frame(f) == Some(Some(payload)) && c == n),
-        }),
+    ensures
+        // for arbitrary bytes: a frame, a request for more data, or an error — exactly as the grammar prescribes
+        pres(r, spec_frame(data@)),
+        r matches Ok(Some((f, c))) ==> 0 < c <= data@.len(),
     decreases data@.len(), 1int,
 //@@ body
 //@@ end
@@ -122,13 +159,25 @@ fn parse_frame(data: &[u8]) -> (r: Result<Option<(RespFrame, usize)>>)
 //@@ unit parse_array fn src/protocol/parser.rs parse_array
 //@@   rewrite R1
 //@@   rewrite RPCALL "Vec::with_capacity" verif_with_capacity
+//@@   rewrite RFOR 0 it
 //@@   loop 0
 //@@|     invariant
 //@@|         data@.len() < 0x4000_0000_0000_0000, alloc_budget() >= data@.len(),
 //@@|         3 <= header_consumed <= total_consumed <= data@.len(),
+//@@|         elements@.len() == it.index@, it.index@ <= len,
+//@@|         spec_elems(data@, header_consumed as int, len as int, Seq::<FV>::empty()) == spec_elems(data@, total_consumed as int, len - it.index@, fseq(elements@)),
+//@@|         spec_frame(data@) == arr_of(spec_elems(data@, header_consumed as int, len as int, Seq::<FV>::empty())),
+//@@   at "for _ in 0..len"
+//@@| proof { assert(fseq(elements@) =~= Seq::<FV>::empty()); }
+//@@   at "Ok(Some((RespFrame::Array(Some(elements)), total_consumed)))"
+//@@| proof { reveal_with_fuel(fview, 2); let fr = RespFrame::Array(Some(elements)); assert(fview(fr) matches FV::Arr(Some(s)) && s =~= fseq(elements@)); }
+//@@   at "elements.push(frame);"
+//@@| let ghost before = fseq(elements@);
+//@@   at "total_consumed += consumed;"
+//@@| proof { assert(fseq(elements@) =~= before.push(fview(elements@[elements@.len() - 1]))); }
 fn parse_array(data: &[u8]) -> (r: Result<Option<(RespFrame, usize)>>)
-    requires data@.len() < 0x4000_0000_0000_0000, alloc_budget() >= data@.len(), data@.len() >= 1,
-    ensures r matches Ok(Some((f, c))) ==> 0 < c <= data@.len(),
+    requires data@.len() < 0x4000_0000_0000_0000, alloc_budget() >= data@.len(), data@.len() >= 1, data@[0] == 42u8,
+    ensures pres(r, spec_frame(data@)), r matches Ok(Some((f, c))) ==> 0 < c <= data@.len(),
     decreases data@.len(), 0int,
 //@@ body
 //@@ end
@@ -136,30 +185,249 @@ fn parse_array(data: &[u8]) -> (r: Result<Option<(RespFrame, usize)>>)
 //@@ unit parse_set fn src/protocol/parser.rs parse_set
 //@@   rewrite R1
 //@@   rewrite RPCALL "Vec::with_capacity" verif_with_capacity
+//@@   rewrite RFOR 0 it
 //@@   loop 0
 //@@|     invariant
 //@@|         data@.len() < 0x4000_0000_0000_0000, alloc_budget() >= data@.len(),
 //@@|         3 <= header_consumed <= total_consumed <= data@.len(),
+//@@|         elements@.len() == it.index@, it.index@ <= len,
+//@@|         spec_elems(data@, header_consumed as int, len as int, Seq::<FV>::empty()) == spec_elems(data@, total_consumed as int, len - it.index@, fseq(elements@)),
+//@@|         spec_frame(data@) == set_of(spec_elems(data@, header_consumed as int, len as int, Seq::<FV>::empty())),
+//@@   at "for _ in 0..len"
+//@@| proof { assert(fseq(elements@) =~= Seq::<FV>::empty()); }
+//@@   at "elements.push(frame);"
+//@@| let ghost before = fseq(elements@);
+//@@   at "total_consumed += consumed;"
+//@@| proof { assert(fseq(elements@) =~= before.push(fview(elements@[elements@.len() - 1]))); }
+//@@   at "Ok(Some((RespFrame::Set(elements), total_consumed)))"
+//@@| proof { reveal_with_fuel(fview, 2); let fr = RespFrame::Set(elements); assert(fview(fr) matches FV::Set(s) && s =~= fseq(elements@)); }
 fn parse_set(data: &[u8]) -> (r: Result<Option<(RespFrame, usize)>>)
-    requires data@.len() < 0x4000_0000_0000_0000, alloc_budget() >= data@.len(), data@.len() >= 1,
-    ensures r matches Ok(Some((f, c))) ==> 0 < c <= data@.len(),
+    requires data@.len() < 0x4000_0000_0000_0000, alloc_budget() >= data@.len(), data@.len() >= 1, data@[0] == 126u8,
+    ensures pres(r, spec_frame(data@)), r matches Ok(Some((f, c))) ==> 0 < c <= data@.len(),
     decreases data@.len(), 0int,
 //@@ body
 //@@ end
 
+/// flat sequence key0, value0, key1, value1, ... of a pair list
+pub open spec fn flat(v: Seq<(RespFrame, RespFrame)>) -> Seq<FV> { Seq::new(2 * v.len(), |i: int| if 0 <= i < 2 * v.len() { if i % 2 == 0 { fview(v[i / 2].0) } else { fview(v[i / 2].1) } } else { FV::Null }) }
+
+proof fn lemma_flat_push(v: Seq<(RespFrame, RespFrame)>, k: RespFrame, x: RespFrame)
+    ensures flat(v.push((k, x))) =~= flat(v).push(fview(k)).push(fview(x)),
+{
+    let a = flat(v.push((k, x)));
+    let b = flat(v).push(fview(k)).push(fview(x));
+    assert(a.len() == b.len());
+    assert forall|i: int| 0 <= i < a.len() implies a[i] == b[i] by {
+        if i < 2 * v.len() { assert(v.push((k, x))[i / 2] == v[i / 2]); }
+        else { assert(i / 2 == v.len()); assert(v.push((k, x))[i / 2] == (k, x)); }
+    }
+}
+
 //@@ unit parse_map fn src/protocol/parser.rs parse_map
 //@@   rewrite R1
 //@@   rewrite RPCALL "Vec::with_capacity" verif_with_capacity
+//@@   rewrite RFOR 0 it
 //@@   loop 0
 //@@|     invariant
 //@@|         data@.len() < 0x4000_0000_0000_0000, alloc_budget() >= data@.len(),
 //@@|         3 <= header_consumed <= total_consumed <= data@.len(),
+//@@|         pairs@.len() == it.index@, it.index@ <= len,
+//@@|         spec_elems(data@, header_consumed as int, 2 * (len as int), Seq::<FV>::empty()) == spec_elems(data@, total_consumed as int, 2 * (len - it.index@), flat(pairs@)),
+//@@|         spec_frame(data@) == map_of(spec_elems(data@, header_consumed as int, 2 * (len as int), Seq::<FV>::empty())),
+//@@   at "for _ in 0..len"
+//@@| proof { assert(flat(pairs@) =~= Seq::<FV>::empty()); }
+//@@   at "let key = match parse_frame"
+//@@| let ghost before = flat(pairs@); let ghost t0 = total_consumed as int; let ghost k0 = 2 * (len - it.index@);
+//@@   at "let value = match parse_frame"
+//@@| proof { assert(spec_elems(data@, t0, k0, before) == spec_elems(data@, total_consumed as int, k0 - 1, before.push(fview(key)))); }
+//@@| let ghost t1 = total_consumed as int;
+//@@   at "pairs.push((key, value));"
+//@@| let ghost kf = fview(key); let ghost vf = fview(value);
+//@@| proof { assert(spec_elems(data@, t1, k0 - 1, before.push(kf)) == spec_elems(data@, total_consumed as int, k0 - 2, before.push(kf).push(vf))); }
+//@@| proof { assert(flat(pairs@.push((key, value))) =~= before.push(kf).push(vf)) by { lemma_flat_push(pairs@, key, value); } }
+//@@   at "Ok(Some((RespFrame::Map(pairs), total_consumed)))"
+//@@| proof { reveal_with_fuel(fview, 2); let fr = RespFrame::Map(pairs); assert(fview(fr) matches FV::Map(s) && s =~= pairs_of(flat(pairs@))); }
 fn parse_map(data: &[u8]) -> (r: Result<Option<(RespFrame, usize)>>)
-    requires data@.len() < 0x4000_0000_0000_0000, alloc_budget() >= data@.len(), data@.len() >= 1,
-    ensures r matches Ok(Some((f, c))) ==> 0 < c <= data@.len(),
+    requires data@.len() < 0x4000_0000_0000_0000, alloc_budget() >= data@.len(), data@.len() >= 1, data@[0] == 37u8,
+    ensures pres(r, spec_frame(data@)), r matches Ok(Some((f, c))) ==> 0 < c <= data@.len(),
     decreases data@.len(), 0int,
 //@@ body
 //@@ end
+
+
+// ======================= incremental parser: RespParser::{feed, parse} =========================
+//@@ item src/protocol/parser.rs RespParser
+
+/// the bytes fed so far and not yet consumed — the only thing `parse` may depend on (buffer compaction and the read
+/// offset are representation details)
+spec fn unconsumed(p: RespParser) -> Seq<u8> { p.buffer@.subrange(p.position as int, p.buffer@.len() as int) }
+spec fn parser_wf(p: RespParser) -> bool { p.position <= p.buffer@.len() && p.buffer@.len() < 0x2000_0000_0000_0000 }
+pub open spec fn is_ws(b: u8) -> bool { b == 32u8 || b == 13u8 || b == 10u8 || b == 9u8 }
+pub open spec fn is_trail(b: u8) -> bool { b == 32u8 || b == 13u8 || b == 10u8 }
+pub open spec fn is_nl(b: u8) -> bool { b == 13u8 || b == 10u8 }
+/// s without its longest prefix of bytes satisfying `which` (0 = ws, 1 = trail, 2 = newline)
+pub open spec fn skip(s: Seq<u8>, which: int) -> Seq<u8>
+    decreases s.len()
+{
+    if s.len() > 0 && (if which == 0 { is_ws(s[0]) } else if which == 1 { is_trail(s[0]) } else { is_nl(s[0]) }) { skip(s.subrange(1, s.len() as int), which) } else { s }
+}
+pub open spec fn ping() -> Seq<u8> { seq![80u8, 73u8, 78u8, 71u8] }
+pub open spec fn ping_frame() -> FV { FV::Arr(Some(seq![FV::Bulk(Some(ping()))])) }
+pub enum Next { More, Bad, Frame(FV, Seq<u8>) }
+/// what the next `parse` call must answer for unconsumed bytes u, and what must remain unconsumed afterwards
+pub open spec fn spec_next(u: Seq<u8>) -> Next {
+    let w = skip(u, 0);
+    if w.len() == 0 { Next::More }
+    else if w.len() < 4 && w == ping().subrange(0, w.len() as int) { Next::More }      // a proper prefix of a raw "PING"
+    else if w.len() >= 4 && w.subrange(0, 4) == ping() { Next::Frame(ping_frame(), skip(w.subrange(4, w.len() as int), 1)) }
+    else { match spec_frame(w) {
+        PR::Incomplete => Next::More,
+        PR::Bad => Next::Bad,
+        PR::Done(f, n) => Next::Frame(f, skip(w.subrange(n, w.len() as int), 2)),
+    } }
+}
+
+spec fn wof(p: RespParser) -> Seq<u8> { skip(unconsumed(p), 0) }
+spec fn is_ping_frame(fr: RespFrame) -> bool {
+    fr matches RespFrame::Array(Some(v)) && v@.len() == 1 && (v@[0] matches RespFrame::BulkString(Some(a)) && a@ == ping())
+}
+proof fn lemma_ping_frame()
+    ensures forall|fr: RespFrame| is_ping_frame(fr) ==> #[trigger] fview(fr) == ping_frame(),
+{
+    reveal_with_fuel(fview, 3);
+    assert forall|fr: RespFrame| is_ping_frame(fr) implies #[trigger] fview(fr) == ping_frame() by {
+        if let RespFrame::Array(Some(v)) = fr {
+            assert(fview(fr)->Arr_0->Some_0 =~= seq![FV::Bulk(Some(ping()))]);
+        }
+    }
+}
+/// `a == b` on byte slices (R7 operator site; body is that operator)
+#[verifier::external_body]
+fn verif_slice_eq(a: &[u8], b: &[u8; 4]) -> (r: bool) ensures r == (a@ == b@), { a == b }
+/// `buffer.drain(..n)` as a statement (RXPR site; body is that expression): removes the first n elements
+#[verifier::external_body]
+fn verif_drain_prefix(v: &mut Vec<u8>, n: usize)
+    requires n <= old(v)@.len(),
+    ensures final(v)@ == old(v)@.subrange(n as int, old(v)@.len() as int),
+{ v.drain(..n); }
+/// `a.starts_with(b)` on byte slices (RCALL site; body is that call)
+#[verifier::external_body]
+fn verif_starts_with(s: &[u8], needle: &[u8]) -> (r: bool)
+    ensures r == (needle@.len() <= s@.len() && s@.subrange(0, needle@.len() as int) == needle@),
+{ s.starts_with(needle) }
+
+/// skipping is local: once the skipped prefix is exhausted inside s, appended bytes are untouched
+pub proof fn lemma_skip_extend(s: Seq<u8>, e: Seq<u8>, which: int)
+    ensures skip(s, which).len() > 0 ==> skip(s + e, which) == skip(s, which) + e,
+    decreases s.len()
+{
+    if s.len() > 0 {
+        let x = s + e;
+        assert(x[0] == s[0]);
+        assert(x.subrange(1, x.len() as int) =~= s.subrange(1, s.len() as int) + e);
+        lemma_skip_extend(s.subrange(1, s.len() as int), e, which);
+    }
+}
+/// THE CHUNKING THEOREM AT BUFFER LEVEL. Once the unconsumed bytes u determine a frame (or a protocol error), any bytes
+/// that arrive later (u + e: the same stream cut at a later point) determine the SAME frame (error): where the network
+/// happened to split the stream cannot change what is parsed; only `More` (wait for more bytes) is revisable.
+pub proof fn lemma_next_extend(u: Seq<u8>, e: Seq<u8>)
+    ensures
+        spec_next(u) matches Next::Frame(f, _) ==> (spec_next(u + e) matches Next::Frame(f2, _) && f2 == f),
+        spec_next(u) is Bad ==> spec_next(u + e) is Bad,
+{
+    let w = skip(u, 0);
+    if w.len() > 0 {
+        lemma_skip_extend(u, e, 0);
+        let w2 = w + e;
+        assert(skip(u + e, 0) == w2);
+        assert(w2[0] == w[0]);
+        if w.len() < 4 && w == ping().subrange(0, w.len() as int) {
+        } else if w.len() >= 4 && w.subrange(0, 4) == ping() {
+            assert(w2.subrange(0, 4) =~= w.subrange(0, 4));
+        } else {
+            // w is not a prefix of / prefixed by PING; neither is w + e
+            if w.len() >= 4 { assert(w2.subrange(0, 4) =~= w.subrange(0, 4)); }
+            else {
+                if w2.len() < 4 && w2 == ping().subrange(0, w2.len() as int) {
+                    assert(w =~= ping().subrange(0, w.len() as int)) by { assert forall|i: int| 0 <= i < w.len() implies w[i] == ping()[i] by { assert(w2[i] == w[i]); } }
+                }
+                if w2.len() >= 4 && w2.subrange(0, 4) == ping() {
+                    assert(w =~= ping().subrange(0, w.len() as int)) by { assert forall|i: int| 0 <= i < w.len() implies w[i] == ping()[i] by { assert(w2.subrange(0, 4)[i] == w[i]); } }
+                }
+            }
+            lemma_frame_extend(w, e);
+        }
+    }
+}
+
+impl RespParser {
+//@@ unit parser_feed fn src/protocol/parser.rs RespParser::feed
+    fn feed(&mut self, data: &[u8])
+        requires parser_wf(*old(self)), old(self).buffer@.len() + data@.len() < 0x2000_0000_0000_0000,
+        ensures parser_wf(*final(self)), unconsumed(*final(self)) =~= unconsumed(*old(self)) + data@,
+//@@ body
+//@@ end
+//@@ unit parser_parse fn src/protocol/parser.rs RespParser::parse
+//@@   rewrite RBSTR
+//@@   rewrite RCALL starts_with "b\"PING\"" verif_starts_with
+//@@   rewrite R7 "&self.buffer[self.position..self.position+4] == b\"PING\"" verif_slice_eq
+//@@   rewrite RXPR "self.buffer.drain(..self.position)" "verif_drain_prefix(&mut self.buffer, self.position)"
+//@@   loop 0
+//@@|     invariant self.buffer@ == old(self).buffer@, self.position <= self.buffer@.len(),
+//@@|         wof(*self) == wof(*old(self)),
+//@@|     decreases self.buffer@.len() - self.position,
+//@@   at "self.position += 1;" #0
+//@@|     proof { assert(unconsumed(*self).subrange(1, unconsumed(*self).len() as int) =~= self.buffer@.subrange(self.position + 1, self.buffer@.len() as int)); }
+//@@   at "if self.position >= self.buffer.len()" #1
+//@@|     proof { assert(wof(*old(self)) == unconsumed(*self)); }
+//@@   at "self.position += 4;"
+//@@|     proof { assert(unconsumed(*self).subrange(0, 4) =~= self.buffer@.subrange(self.position as int, self.position + 4)); }
+//@@|     let ghost w0 = unconsumed(*self);
+//@@   at "while self.position < self.buffer.len()" #1
+//@@|     proof { assert(unconsumed(*self) =~= w0.subrange(4, w0.len() as int)); }
+//@@   at "self.position += consumed;"
+//@@|     let ghost w0 = unconsumed(*self);
+//@@   at "while self.position < self.buffer.len()" #2
+//@@|     proof { assert(unconsumed(*self) =~= w0.subrange(consumed as int, w0.len() as int)); }
+//@@   at "return Ok(Some(RespFrame::Array(Some(vec!["
+//@@|     proof {
+//@@|         lemma_ping_frame();
+//@@|         assert(w0.subrange(0, 4) == ping());
+//@@|         assert(skip(unconsumed(*self), 1) == unconsumed(*self));
+//@@|         assert(spec_next(unconsumed(*old(self))) == Next::Frame(ping_frame(), unconsumed(*self)));
+//@@|     }
+//@@   at "match parse_frame(&self.buffer[self.position..])?"
+//@@|     proof {
+//@@|         let w = unconsumed(*self);
+//@@|         assert(w == wof(*old(self)));
+//@@|         assert(!(w.len() < 4 && w == ping().subrange(0, w.len() as int)));
+//@@|         assert(w.len() >= 4 ==> w.subrange(0, 4) =~= self.buffer@.subrange(self.position as int, self.position + 4));
+//@@|         assert(!(w.len() >= 4 && w.subrange(0, 4) == ping()));
+//@@|     }
+//@@   loop 1
+//@@|     invariant self.buffer@ == old(self).buffer@, self.position <= self.buffer@.len(),
+//@@|         skip(unconsumed(*self), 1) == skip(wof(*old(self)).subrange(4, wof(*old(self)).len() as int), 1),
+//@@|     decreases self.buffer@.len() - self.position,
+//@@   at "self.position += 1;" #1
+//@@|     proof { assert(unconsumed(*self).subrange(1, unconsumed(*self).len() as int) =~= self.buffer@.subrange(self.position + 1, self.buffer@.len() as int)); }
+//@@   loop 2
+//@@|     invariant self.buffer@ == old(self).buffer@, self.position <= self.buffer@.len(),
+//@@|         spec_frame(wof(*old(self))) matches PR::Done(_, n) && skip(unconsumed(*self), 2) == skip(wof(*old(self)).subrange(n, wof(*old(self)).len() as int), 2),
+//@@|     decreases self.buffer@.len() - self.position,
+//@@   at "self.position += 1;" #2
+//@@|     proof { assert(unconsumed(*self).subrange(1, unconsumed(*self).len() as int) =~= self.buffer@.subrange(self.position + 1, self.buffer@.len() as int)); }
+    fn parse(&mut self) -> (r: Result<Option<RespFrame>>)
+        requires parser_wf(*old(self)), alloc_budget() >= old(self).buffer@.len(),
+        ensures parser_wf(*final(self)),
+            match spec_next(unconsumed(*old(self))) {
+                Next::More => r matches Ok(None) && skip(unconsumed(*final(self)), 0) == skip(unconsumed(*old(self)), 0),
+                Next::Bad => r is Err,
+                Next::Frame(f, rest) => r matches Ok(Some(fr)) && fview(fr) == f && unconsumed(*final(self)) =~= rest,
+            },
+//@@ body
+//@@ end
+}
 
 } // verus!
 fn main() {}
